@@ -44,3 +44,9 @@ package main
 //@   ensures [C17] @reportsTip result == n.height
 //@ func (*simNode).CurrentBlockHash
 //@   ensures [C17] @reportsTip result == n.lastHash
+
+// a broadcast tries every other node of the cluster once (a full inbox drops the message, it does not skip the peer)
+//@ func (*simNode).Broadcast
+//@   requires n.log != nil && forall(k, 0, len(n.cluster), n.cluster[k] != nil && n.cluster[k].messages != nil)
+//@   loop 1: invariant 0 <= idx && idx <= len(n.cluster) && sendattempts() - before(sendattempts()) == count(j, 0, idx, j != n.id)
+//@   ensures [C17] @everyPeer sendattempts() - old(sendattempts()) == count(j, 0, len(n.cluster), j != n.id)
